@@ -380,6 +380,7 @@ func C11(c *sim.Ctx) {
 	}
 	srv := jsonrpc.NewServer(poolSize, logger)
 	rec := &recorder{park: class == classSched}
+	heldAnswer := !viaHTTP && !viaWS && !useRW && class != classSched && t.Chance("held_answer", 1, 6)
 	c.Must(register(srv, rec), "register methods")
 	if viaWS {
 		c.Must(srv.RegisterMethods(jsonrpc.Method{Name: sentinelMethod, Handler: func() (any, *jsonrpc.Error) { return "pong", nil }}), "register the sentinel method")
@@ -423,6 +424,19 @@ func C11(c *sim.Ctx) {
 			res.out = rw.w.Bytes()
 		} else {
 			res.out, _, res.err = srv.HandleReader(ctx, rd)
+			if heldAnswer && !rec.park {
+				// Another client's batch is served while this answer has been handed over but not yet
+				// written out by a transport: the bytes handed over must still be this request's answer
+				// afterwards (they must not live in memory the server reuses for the next request).
+				rec.mu.Lock()
+				keep := len(rec.invs)
+				rec.mu.Unlock()
+				_, _, _ = srv.HandleReader(context.Background(), strings.NewReader(`[{"jsonrpc":"2.0","method":"m0","params":[],"id":"other-client-1"},{"jsonrpc":"2.0","method":"m0","params":[],"id":"other-client-2"},{"jsonrpc":"2.0","method":"m0","params":[],"id":"other-client-3"}]`))
+				rec.mu.Lock()
+				rec.invs = rec.invs[:keep]
+				rec.mu.Unlock()
+				c.Probe("answer_held_while_another_request_is_served")
+			}
 		}
 		return res
 	}
